@@ -17,7 +17,9 @@ package c17
 //  * correspondence with the Lean models (op lines -> Driver/C17.lean): PowerDiff, binary64 addition (round53 / fadd),
 //    GetSupportChains, GetAllBatchFees with and without per-token limit / base fees, UpdateProposalOracles (error kind /
 //    unbonding order on a branch of each history's state), gov Tally (sum of per-validator contributions); repeated calls
-//    of the real functions must be bit-identical (monitors).
+//    of the real functions must be bit-identical (monitors); the transfer stack's OnAcknowledgementPacket for every
+//    acknowledgement shape against the regenerated statement program (ack_test.go);
+//  * round 4: forged acknowledgements of a hostile counterparty relayed as real MsgAcknowledgement transactions (ack_test.go).
 
 import (
 	"encoding/json"
